@@ -52,7 +52,7 @@ def required_counters(tier):
         "sig.defaults": 200,
         "sig.hostile_names": 500, "sig.arg_symbolic": 100,
         "exc.propagated": 100,
-        "metadata.compared": 500,
+        "metadata.compared": 500, "style.double": 50, "sig.kw_named_like_posonly": 50,
     }
 
 
@@ -156,6 +156,11 @@ def make_values(rng, params, well_typed=True):
             vals[p["name"]] = tuple(mk() for _ in range(rng.choice((0, 1, 2))))
         elif p["kind"] == "varkw":
             vals[p["name"]] = {f"extra{j}": mk() for j in range(rng.choice((0, 1, 2)))}
+            # a keyword spelled like a positional-only parameter legitimately lands in **kwargs
+            posonly = [q["name"] for q in params if q["kind"] == "posonly"]
+            if posonly and rng.random() < 0.6:
+                vals[p["name"]][rng.choice(posonly)] = mk()
+                vals["__kw_like_posonly__"] = True
         else:
             vals[p["name"]] = mk()
             if p["default"]:
@@ -218,9 +223,11 @@ def run_case(rec, rng, rngkey=None):
         params = []
     checker_name = rng.choice(("typeguard", "beartype"))
     checker = {"typeguard": typeguard.typechecked, "beartype": beartype.beartype}[checker_name]
-    style = "new" if rng.random() < 0.85 or kind != "def" or desc != "function" else "old"
+    style = "new" if rng.random() < 0.8 or kind != "def" or desc != "function" else rng.choice(("old", "double"))
     raise_exc = rng.random() < 0.2
     vals, defaults, anns = make_values(rng, params)
+    if vals.pop("__kw_like_posonly__", False):
+        rec.count("sig.kw_named_like_posonly")
     if any("{" in getattr(a, "dim_str", "") for a in anns.values()):
         rec.count("sig.arg_symbolic")
     RES = rng.choice((object(), [1, 2], {"k": 1}, np.zeros(2), (1, 2), "text"))
@@ -252,7 +259,14 @@ def run_case(rec, rng, rngkey=None):
     if kind == "lambda":
         plain.__annotations__ = {p["name"]: anns[i] for i, p in enumerate(params) if i in anns}
     # decorate
-    deco = (lambda f: jaxtyped(typechecker=checker)(f)) if style == "new" else (lambda f: jaxtyped(checker(f)))
+    if style == "new":
+        deco = lambda f: jaxtyped(typechecker=checker)(f)
+    elif style == "double":
+        # decorated twice: first without a typechecker (manual isinstance style), then with one
+        deco = lambda f: jaxtyped(typechecker=checker)(jaxtyped(typechecker=None)(f))
+        rec.count("style.double")
+    else:
+        deco = lambda f: jaxtyped(checker(f))
     wrap_in = {"function": lambda f: f, "method": lambda f: f, "classmethod": classmethod, "staticmethod": staticmethod, "property": property}[desc]
     try:
         with warnings.catch_warnings():
@@ -327,6 +341,12 @@ def run_case(rec, rng, rngkey=None):
             outcome = ("exc", e)
         return outcome, [tuple(r) for r in REC]
 
+    KNOWN_BIND = "parameter is positional only, but was passed as a keyword"
+
+    def spurious_bind_error(o_plain, o_deco):
+        """CPython's inspect.Signature.bind rejects f(a=5) for `def f(a=1, /, **kw)` although the call is legal"""
+        return o_deco[0] == "exc" and type(o_deco[1]) is TypeError and KNOWN_BIND in str(o_deco[1]) and not (o_plain[0] == "exc" and type(o_plain[1]) is TypeError)
+
     # (1) well-typed binding call
     args, kwargs = build_call(rng, params, vals)
     o1, r1 = invoke("plain", args, kwargs)
@@ -338,6 +358,9 @@ def run_case(rec, rng, rngkey=None):
         rec.count("calls.well_typed")
         if raise_exc:
             rec.count("exc.propagated")
+        if spurious_bind_error(o1, o2):
+            rec.violation("well-typed-call-rejected", case, f"plain call works ({o1[0]}), decorated raises TypeError: {o2[1]}", mechanism="inspect-bind-rejects-keyword-named-like-omitted-posonly-default")
+            return
         if len(r2) != 1:
             rec.violation("body-runs", case, f"well-typed call: body ran {len(r2)} times (plain: {len(r1)})", mechanism=f"body-ran-{len(r2)}-times")
         elif r2 != r1:
@@ -361,11 +384,14 @@ def run_case(rec, rng, rngkey=None):
             o2, r2 = invoke("deco", a2, k2)
             rec.case((src, "ill", checker_name, style), nontriv)
             rec.count("calls.ill_typed")
+            if spurious_bind_error(o1, o2):
+                rec.violation("well-typed-call-rejected", case, f"ill-typed variant: decorated raises the bind TypeError: {o2[1]}", mechanism="inspect-bind-rejects-keyword-named-like-omitted-posonly-default")
+                return
             if len(r2) != 0:
                 rec.violation("body-ran-on-ill-typed", case, f"ill-typed call ({p['name']} violates its annotation) but the body ran {len(r2)} times", mechanism="body-ran-on-ill-typed")
             elif o2[0] != "exc" or not (isinstance(o2[1], TypeError) or (style == "old" and "Violation" in type(o2[1]).__name__)):
                 rec.violation("ill-typed-not-rejected", case, f"ill-typed call returned {o2}", mechanism="ill-typed-accepted")
-            elif style == "new" and not isinstance(o2[1], TypeCheckError):
+            elif style in ("new", "double") and not isinstance(o2[1], TypeCheckError):
                 rec.violation("ill-typed-wrong-error", case, f"new-style ill-typed call raised {type(o2[1]).__name__}", mechanism="ill-typed-error-" + type(o2[1]).__name__)
     # (3) non-binding call
     if desc != "property":
